@@ -1,4 +1,10 @@
-"""C16 helper, used for *attribution only* (never for a verdict): translate a tree / a Python AST
+"""C16 helper, used for *attribution* and for *constructing inputs* (never for a verdict).
+
+Inputs: ``user_symbol``/``user_expr`` make what a user hands to ``SymbolicDim(<sympy.Expr>)`` - a
+symbol with the assumptions the user chose, or a ring expression (+, -, *, unary minus) over
+such symbols and integers.
+
+Attribution: translate a tree / a Python AST
 of the documented grammar faithfully into SymPy (symbols declared integer and positive, exactly
 as the library documents them; ``a // b`` = ``floor(a / b)``, ``a % b`` = ``Mod(a, b)``) and ask
 SymPy for the value.  When SymPy itself returns the same wrong value for the faithful
@@ -17,10 +23,34 @@ def _sym(name: str):
     return sympy.Symbol(name, integer=True, positive=True)
 
 
+# what a user may declare on a symbol without contradicting a positive integer binding
+USER_ASSUMPTIONS = {
+    "plain": {},
+    "int": {"integer": True},
+    "pos": {"positive": True},
+    "real": {"real": True},
+    "nonneg-int": {"integer": True, "nonnegative": True},
+    "lib": {"integer": True, "positive": True},  # the very object the library makes from text
+}
+
+
+def user_symbol(name: str, tag: str):
+    return sympy.Symbol(name, **USER_ASSUMPTIONS[tag])
+
+
+def user_expr(t):
+    """The SymPy expression of a ``usym`` / ``uexpr`` node (ring operators only)."""
+    return from_tree(t)
+
+
 def from_tree(t):
     k = t[0]
     if k == "sym":
         return _sym(t[1])
+    if k == "usym":
+        return user_symbol(t[1], t[2])
+    if k == "uexpr":
+        return sympy.sympify(from_tree(t[1]))
     if k == "int":
         return sympy.Integer(t[1])
     a = [from_tree(c) for c in t[1:]]
@@ -93,12 +123,12 @@ def from_ast(node, names: dict[str, str]):
 def value(expr, bindings: dict[str, int], order: list[str] | None = None) -> Fraction | None:
     """Substitute by symbol name (optionally one symbol at a time in ``order``); a rational
     result as Fraction, anything else (unevaluated, complex, infinite) as None."""
-    by_name = {str(s): s for s in expr.free_symbols}
+    # several distinct symbols may carry one name (user-supplied ones with other assumptions)
     if order:
         for name in order:
-            if name in by_name and name in bindings:
-                expr = expr.subs({by_name[name]: bindings[name]})
-    expr = expr.subs({by_name[n]: v for n, v in bindings.items() if n in by_name})
+            if name in bindings:
+                expr = expr.subs({s: bindings[name] for s in expr.free_symbols if str(s) == name})
+    expr = expr.subs({s: bindings[str(s)] for s in expr.free_symbols if str(s) in bindings})
     if getattr(expr, "is_Rational", False):
         return Fraction(int(expr.p), int(expr.q))
     return None
